@@ -868,6 +868,14 @@ class Interp:
     def ev_Constant(self, n, env):
         return n.value
 
+    def lookup_is_builtin(self, name, env):
+        """does `name` resolve to the builtin of that name here (not shadowed by a local / module definition)?"""
+        try:
+            v = self.lookup(name, env)
+        except PyExc:
+            return False
+        return isinstance(v, Builtin) and v is self.builtins.get(name)
+
     def ev_Name(self, n, env):
         name = n.id
         if env.cls is not None:
@@ -911,6 +919,19 @@ class Interp:
         return SStr(self.st.fresh_name('fstr'))
 
     def ev_IfExp(self, n, env):
+        # peephole (reals):  `0.0 if abs(X) <= T else X`  with T evaluating to the number 0 is X  (abs(X) <= 0 iff X == 0).
+        # Decided on the syntax tree because the solver-side simplifier rewrites abs/products beyond recognition.
+        t = n.test
+        if isinstance(t, ast.Compare) and len(t.ops) == 1 and isinstance(t.ops[0], ast.LtE) and \
+                isinstance(t.left, ast.Call) and isinstance(t.left.func, ast.Name) and t.left.func.id == 'abs' and \
+                len(t.left.args) == 1 and not t.left.keywords and ast.dump(t.left.args[0]) == ast.dump(n.orelse) and \
+                isinstance(n.body, ast.Constant) and n.body.value == 0 and not isinstance(n.body.value, bool) and \
+                isinstance(n.orelse, ast.Name) and self.lookup_is_builtin('abs', env):
+            tol = self.eval(t.comparators[0], env)
+            if isinstance(tol, (int, float)) and not isinstance(tol, bool) and tol == 0:
+                v = self.eval(n.orelse, env)
+                if numkind(v) == 'real' or (isinstance(v, float)):
+                    return v
         c = self.eval(n.test, env)
         tv = self.truth_term(c)
         if isinstance(tv, bool):
@@ -920,6 +941,20 @@ class Interp:
             a = self.try_pure(n.body, env, tv)
             b = self.try_pure(n.orelse, env, z3.Not(tv))
             if a is not None and b is not None and numkind(a) and numkind(b):
+                if numkind(a) == 'real' or numkind(b) == 'real':
+                    # `0.0 if abs(s) <= tol else s` with tol = 0 IS s: when the guard implies that both arms are
+                    # equal the conditional is dropped (decided on an abstraction in which every nonlinear subterm is
+                    # an opaque constant -- the typical instance is linear once s is opaque).  Keeps big arithmetic
+                    # terms free of if-then-else, which the solvers handle much better.
+                    from .algebra import _abstract
+                    am = {}
+                    ta, tb, tc = (_abstract(z3.simplify(u), am) for u in (zreal(a), zreal(b), tv))
+                    for cond, keep in ((tc, b), (z3.Not(tc), a)):
+                        sv = z3.Solver()
+                        sv.set('timeout', 1000)
+                        sv.add(cond, ta != tb)
+                        if sv.check() == z3.unsat:
+                            return keep
                 return self.ite(tv, a, b)
         if self.st.branch(tv):
             return self.eval(n.body, env)
